@@ -195,8 +195,9 @@ type State struct {
 type searchHit struct {
 	h    StrV
 	c    int
-	mask Mask // possible needle bytes
-	nlen Lin  // needle length (strings.Index); zero value = 1 byte
+	mask Mask            // possible needle bytes
+	nlen Lin             // needle length (strings.Index); zero value = 1 byte
+	org  ssa.Instruction // the search call
 }
 
 func newState() *State {
